@@ -2608,7 +2608,10 @@ class VM:
                     self._invoke_setter(holder._setters[key_str], obj, value)
                     return
                 if key_str in holder._getters:
-                    break
+                    # strict mode: an accessor without a setter cannot be assigned
+                    raise JSTypeError(
+                        f"Cannot set property '{key_str}' which has only a getter"
+                    )
                 holder = holder._prototype
             obj.set(key_str, value)
         elif isinstance(obj, (str, int, float)):
